@@ -81,6 +81,13 @@ CHECKS = {
         "deterministic simulation with fault injection: crash points at stage boundaries and line-level pre-emption, file-system/open-handle oracle, fault-free twin",
         "DESIGN.md 4/C15", 900, 14400,
     ),
+    "C11": (
+        "exploration",
+        "Differential simulation: (a) one seeded physics scenario executed under 2-4 observer configurations (save_every, output file vs temp dir, probes on/off on the same mesh object, tqdm vs log-line progress with a simulated perf_counter, monitor flag with a Popen stub, pause flag, thread count, wall-clock scripts incl. backward jumps): every update's output and dt, and all frames with equal step label, must be bit-identical, and each frame equals the state after that many updates; (b) crash-restart: fixed-step run of N1 steps, durable file reloaded by Solution.from_hdf5 (fresh objects), N2 more steps seeded from it, every resumed frame bit-identical to the uninterrupted N1+N2 run, for sampled split points of runs up to 16 (some to 40) steps, screening on/off, static drives.",
+        "Trusted: the update-seam capture and h5py read-back. Resume is only defined for static drives (time restarts at 0).",
+        "deterministic simulation: differential twin runs across observer configurations; crash-restart through the durable file",
+        "DESIGN.md 4/C11", 900, 7200,
+    ),
 }
 
 
